@@ -100,7 +100,9 @@ def _split_case(args):
                 out.append(violation(W, "part-too-large", case,
                                      f"{p.name}: {r['__len__']} > {size}",
                                      tags))
-            if "src_vf-log" not in r["__logs__"]:
+            # retained under whatever name (dclab: "src_vf-log")
+            if not any("vf-log" in k and list(v) == ["a", "b"]
+                       for k, v in r["__logs__"].items()):
                 out.append(violation(W, "log-missing", case, p.name, tags))
         # expected content of part i: events [i*size, (i+1)*size) & keep
         for i, r in enumerate(parts):
@@ -258,12 +260,13 @@ def _join_case(args):
                 out.append(violation(W, "wrong-index", case,
                                      f"{ds['index'][:]}", tags))
         for pos, j in enumerate(order):
-            key = f"src-#{pos + 1}_log{j}"
-            if key not in r["__logs__"] or r["__logs__"][key] != [
-                    f"line of {j}"]:
+            # retained under whatever name (dclab: "src-#<k>_log<j>")
+            if not any(f"log{j}" in k and list(v) == [f"line of {j}"]
+                       for k, v in r["__logs__"].items()):
                 out.append(violation(
                     W, "log-missing", case,
-                    f"{key} not in {sorted(r['__logs__'])}", tags))
+                    f"log{j} (input {pos + 1}) not in "
+                    f"{sorted(r['__logs__'])}", tags))
     except Exception as e:
         out.append(violation(W, "exception", case,
                              f"{type(e).__name__}: {e}",
